@@ -12,7 +12,7 @@ SIZE_SETS = [[2], [3], [2, 3], [2, 4], [2, 5], [3, 5], [2, 3, 4], [2, 4, 6], [4]
 class C08(Prop):
     pid = "C08"
     rule = ("clique covers over 2-14 vertices numbered contiguously from 0 or 1, clique sizes drawn from non-adjacent size sets "
-            "({2,4}, {2,5}, {3,5}, {2,4,6}, ...), overlapping cliques, every vertex covered; 10% malformed (non-contiguous ids) compared "
+            "({2,4}, {2,5}, {3,5}, {2,4,6}, ...), overlapping cliques, every vertex covered; every fiftieth cover has one vertex in 257-330 cliques; 10% malformed (non-contiguous ids) compared "
             "with the model only; non-trivial = at least two clique sizes occur or a size gap exists; distinct = distinct cover")
     assumptions = ["int/int float frequencies are mapped back to the unique rational with denominator <= number of vertices"]
     model_scope = "modelled: joint_degree_cover.py in full (constructor + create_jdd) and convert_jds_to_jdd"
@@ -27,8 +27,19 @@ class C08(Prop):
             # large cliques next to small ones (sizes whose hash-table order is not their numeric order: 8, 9, 16, 33 ...)
             sizes = rng.choice([[2, 9], [2, 3, 8], [3, 10], [2, 16], [9, 8], [2, 4, 33], [17, 3, 2, 5, 32], [8]])
             n = max(sizes) + rng.randint(0, 4)
+        hub = i % 50 == 7
+        if hub:
+            # one vertex in several hundred cliques of the same size
+            sizes = rng.choice([[2], [2, 3], [3]])
+            n = rng.randint(258, 330)
         verts = list(range(base, base + n))
         cover = []
+        if hub:
+            h = rng.choice(verts)
+            for v in verts:
+                if v != h:
+                    s = rng.choice(sizes)
+                    cover.append([h, v] + rng.sample([u for u in verts if u not in (h, v)], s - 2))
         for _ in range(rng.randint(1, 10)):
             s = rng.choice(sizes)
             cover.append(rng.sample(verts, s))
